@@ -26,6 +26,9 @@ claimed={
  "C13":dict(design="§7 C13",
    text="Bounded symbolic model checking of ApplyPerRPCCreds, GetCallOptions, getPeer/peerFromRequest and both HTTP entry points up to the first request: scheme, host form, TLS state, unary/streaming, presence and behaviour of the credentials (metadata overlapping or not, empty, error, requires security) and caller metadata are symbolic choices; assertions: a secure-only credential on a non-https base URL fails with zero requests issued; otherwise the handler sees caller metadata followed by credential metadata per key; peer address as documented; AuthInfo present iff the connection uses TLS for unary and streaming alike.",
    note="Trusted: engine SSA semantics, HTTP hop harness (the connection's TLS state appears on the response and on the server's request, as with net/http), context model, protobuf codec intrinsic. Metadata values are concrete here (value fidelity is C03's subject)."),
+ "C07":dict(design="§7 C07",
+   text="Bounded symbolic model checking of the real stream decoders (readSizePreface, readProtoMessage, doHttpCall's read loop, clientStream.RecvMsg, serverStream.RecvMsg): the body is an arbitrary byte string up to the cap (so every 32-bit length prefix is covered), ending cleanly or abruptly; an allocation monitor asserts size <= maxMessageSize at every input-dependent make; delivered messages are compared with a reference frame splitter (no fabrication, intact prefix); success requires a complete OK trailer; plus a well-formed response cut at every byte offset must be a failed call. Panics are implicit assertions.",
+   note="Trusted: engine SSA semantics, protobuf wire codec intrinsic (real wire format for the generated structs; unknown fields skipped as the runtime does), context model, io.Pipe/io.ReadAtLeast/binary.Read from real SSA. Bodies longer than the cap are outside the claim; allocations larger than the alloc cap are checked against the limit but not followed further."),
 }
 pending_reason="check not built yet (engine layers under construction); see DESIGN.md §9"
 na={}
